@@ -35,6 +35,19 @@ pub enum Op {
     ManyU16(u32),
 }
 
+/// Size arguments are 32-bit in the operation alphabet; the three largest codes stand for sizes no input can
+/// satisfy and that overflow `position + size`: 2^64 - 1, 2^64 - 8 and 2^63 (a length prefix is a `usize` read
+/// from the untrusted stream itself, so a reader meets them).
+pub const HUGE: [u32; 3] = [u32::MAX, u32::MAX - 1, u32::MAX - 2];
+pub fn sz(n: u32) -> usize {
+    match n {
+        u32::MAX => usize::MAX,
+        0xffff_fffe => usize::MAX - 7,
+        0xffff_fffd => 1usize << 63,
+        _ => n as usize,
+    }
+}
+
 /// size arguments relative to the remaining input are resolved against the reference position
 #[derive(Clone, Copy, Debug, PartialEq, Eq, Hash)]
 pub enum Arg {
@@ -73,10 +86,10 @@ fn apply<Rd: ByteReader>(r: &mut Rd, op: Op) -> R {
         Op::ReadU128 => r.read_u128().map(Val::U),
         Op::ReadUsize => r.read_usize().map(|v| Val::U(v as u128)),
         Op::HasMore => Ok(Val::B(r.has_more_bytes())),
-        Op::Slice(n) => r.read_slice(n as usize).map(|s| Val::Bytes(s.to_vec())),
-        Op::Vec(n) => r.read_vec(n as usize).map(Val::Bytes),
-        Op::Str(n) => r.read_string(n as usize).map(Val::S),
-        Op::Eor(n) => r.check_eor(n as usize).map(|_| Val::Unit),
+        Op::Slice(n) => r.read_slice(sz(n)).map(|s| Val::Bytes(s.to_vec())),
+        Op::Vec(n) => r.read_vec(sz(n)).map(Val::Bytes),
+        Op::Str(n) => r.read_string(sz(n)).map(Val::S),
+        Op::Eor(n) => r.check_eor(sz(n)).map(|_| Val::Unit),
         Op::ManyU16(k) => r.read_many::<u16>(k as usize).map(Val::Many),
         Op::Arr(n) => match n {
             0 => arr::<Rd, 0>(r),
@@ -399,10 +412,11 @@ fn alphabet(remaining: usize, thorough: bool) -> Vec<Op> {
     }
     sizes.sort();
     sizes.dedup();
+    sizes.extend(HUGE);
     for n in sizes.iter() {
         ops.push(Op::Slice(*n));
         ops.push(Op::Eor(*n));
-        if thorough || [0u32, 1, 17, 256, 300].contains(n) || *n as i64 >= remaining as i64 - 1 {
+        if thorough || HUGE.contains(n) || [0u32, 1, 17, 256, 300].contains(n) || *n as i64 >= remaining as i64 - 1 {
             ops.push(Op::Vec(*n));
             ops.push(Op::Str(*n));
         }
